@@ -76,7 +76,7 @@ def run(rep, work, tier, seed, props, replay=None):
         st = builders[i].stmts
         return any((o is not None) != (st[j].get("expect") == "raise") for j, o in enumerate(r["outcomes"]))
     raised = [i for i, r in enumerate(results) if unexpected(i, r)]
-    ok_idx = [i for i, r in enumerate(results) if progs.exact_safe(r) and i not in set(raised)]
+    ok_idx = [i for i, r in enumerate(results) if progs.exact_safe(r) and i not in set(raised) and not getattr(builders[i], "explicit_const_views", False)]
     discarded = len(builders) - len(ok_idx) - len(raised)
     owner = lambda nm, o: not o["has_base"]
     terms = [progs.coq_fcase(builders[i], results[i], grad_filter=owner) for i in ok_idx]
